@@ -8,6 +8,8 @@ package main
 
 import (
 	"bufio"
+	"bytes"
+	"sort"
 	"encoding/json"
 	"fmt"
 	"hash/fnv"
@@ -401,17 +403,53 @@ func opWalk(op *proto.Op, res *proto.Res) error {
 		root uint64
 	}
 	roots := []troot{{"sys_pages", res.Hdr.PTRoot}}
-	rows, _, err := rs.Fetch("sys_pages")
-	if err != nil {
-		return fmt.Errorf("fetch sys_pages: %w", err)
-	}
-	for _, r := range rows {
-		name, _ := r.Vals[0].(string)
-		off, _ := r.Vals[1].(int64)
-		if name == "sys_pages" {
-			continue
+	// read the catalog with peeks only (no engine traversal: it could loop on
+	// a malformed tree)
+	ptSchema := &storage.Relation{Fields: []storage.FieldDef{{Name: "table_name", DataType: storage.TypeVarchar, Len: 255}, {Name: "file_offset", DataType: storage.TypeBigInt}}}
+	{
+		queue := []uint64{res.Hdr.PTRoot}
+		seen := map[uint64]bool{}
+		type ent struct {
+			key  uint32
+			name string
+			off  uint64
 		}
-		roots = append(roots, troot{name, uint64(off)})
+		var ents []ent
+		for len(queue) > 0 && len(seen) < 100000 {
+			off := queue[0]
+			queue = queue[1:]
+			if seen[off] {
+				continue
+			}
+			seen[off] = true
+			p, err := storage.VerifPeek(rs, off)
+			if err != nil {
+				return fmt.Errorf("catalog page %d: %w", off, err)
+			}
+			if !p.Leaf {
+				queue = append(queue, p.Children...)
+				queue = append(queue, p.Right)
+				continue
+			}
+			for i, v := range p.Vals {
+				if p.Deleted[i] {
+					continue
+				}
+				tu := storage.Tuple{Relation: ptSchema, Vals: map[string]interface{}{}}
+				if err := tu.Decode(bytes.NewBuffer(v)); err != nil {
+					return fmt.Errorf("catalog row: %w", err)
+				}
+				name, _ := tu.Vals["table_name"].(string)
+				o, _ := tu.Vals["file_offset"].(int64)
+				ents = append(ents, ent{p.Keys[i], name, uint64(o)})
+			}
+		}
+		sort.Slice(ents, func(i, j int) bool { return ents[i].key < ents[j].key })
+		for _, e := range ents {
+			if e.name != "sys_pages" {
+				roots = append(roots, troot{e.name, e.off})
+			}
+		}
 	}
 	limit := op.N
 	if limit == 0 {
@@ -442,7 +480,31 @@ func opWalk(op *proto.Op, res *proto.Res) error {
 			}
 		}
 		t.NoLookups = op.M != 0
-		if op.M == 0 { // point lookups + reverse scan
+		// the engine's own traversals can loop forever on a malformed tree
+		// (e.g. a child pointer to page 0): run them only on trees whose
+		// dump is locally sane; the orchestrator judges the dump either way
+		sane := true
+		seenOff := map[uint64]bool{}
+		for _, pg := range t.Pages {
+			if pg.Err != "" || seenOff[pg.Off] || pg.Off == 0 || (!pg.Leaf && len(pg.Keys) == 0) {
+				sane = false
+			}
+			seenOff[pg.Off] = true
+			if !pg.Leaf {
+				for _, ch := range append(append([]uint64(nil), pg.Children...), pg.Right) {
+					if ch == 0 || ch%4096 != 0 {
+						sane = false
+					}
+				}
+			}
+			if pg.Leaf && ((pg.HasR && pg.RSib == pg.Off) || (pg.HasL && pg.LSib == pg.Off)) {
+				sane = false
+			}
+		}
+		if !sane {
+			t.NoLookups = true
+		}
+		if op.M == 0 && sane { // point lookups + reverse scan
 			for _, pg := range t.Pages {
 				if !pg.Leaf || pg.Err != "" {
 					continue
